@@ -336,18 +336,17 @@ open TE.Index
 def behaviourOf (k : String) : Option Behaviour :=
   (Gen.kernelBehaviour.find? (·.1 == k)).map (·.2.1)
 
-/-- the index sites that NO guard protects on this tree (file, function, kernel kind, source):
+/-- the index sites that NO guard protects on this tree (file, function, kernel kind, unconstructed roots):
     an upper bound — a site that gets a guard may stay listed, a new unguarded site breaks
     `index_sites_guarded`.  Consequences on the real code: harness/props/c14.py (`UNGUARDED`). -/
 def unguardedSites : List (String × String × String × String) := [
-  ("functional/classification/binned_precision_recall_curve.py", "_update", "histc",
-   "input.searchsorted | target | threshold.searchsorted"),
+  ("functional/classification/binned_precision_recall_curve.py", "_update", "histc", "target"),
   ("functional/classification/binned_precision_recall_curve.py", "_multiclass_binned_precision_recall_curve_update_memory",
    "index_aug", "target"),
   ("functional/classification/binned_precision_recall_curve.py", "_multiclass_binned_precision_recall_curve_update_memory",
    "histc", "target"),
   ("functional/classification/binned_precision_recall_curve.py", "_multilabel_binned_precision_recall_curve_update_memory",
-   "histc", "input.searchsorted | input.shape | input.shape.arange | target | threshold.searchsorted"),
+   "histc", "target"),
   ("functional/text/perplexity.py", "_perplexity_update", "index_get", "target")
 ]
 
